@@ -15,11 +15,18 @@ import (
 	bettypes "github.com/sge-network/sge/x/bet/types"
 	housetypes "github.com/sge-network/sge/x/house/types"
 	obtypes "github.com/sge-network/sge/x/orderbook/types"
+	markettypes "github.com/sge-network/sge/x/market/types"
 )
 
 var prec = new(big.Int).Exp(big.NewInt(10), big.NewInt(18), nil)
 
 func decFromStr(s string) *big.Int { return sdkmath.LegacyMustNewDecFromStr(s).BigInt() }
+
+type deferredWdr struct {
+	mkt, owner int64
+	left       int // attempts left
+	lastH      int64
+}
 
 type gMarket struct {
 	uid      int64
@@ -30,6 +37,7 @@ type gMarket struct {
 	creator  int64
 	nparts   int64
 	resolved bool
+	resH     int64 // height of the block in which the resolution was accepted
 }
 
 type Gen struct {
@@ -41,6 +49,7 @@ type Gen struct {
 	nextBet  int64
 	usedBets []int64
 	pending  []Op // operations to be emitted next, in the same block (bursts)
+	deferred []deferredWdr // full withdrawals to be sent in the blocks after the resolution of their market (withdrawInWindow)
 	lastLeader int64 // leader key after the last observed block
 	seenLeader bool
 	former   []int64 // keys that have lost the leader position
@@ -481,6 +490,23 @@ func (g *Gen) genWithdraw() Op {
 		return g.genDeposit()
 	}
 	p := pick(g.r, parts)
+	if g.chance(0.3) {
+		// prefer a participation still unsettled on a market whose result is declared: its bets are being settled batch by batch, and what
+		// a settled bet releases must not become withdrawable while other bets of the participation are still open
+		var live []obtypes.OrderBookParticipation
+		for _, q := range parts {
+			if q.IsSettled {
+				continue
+			}
+			if m, ok := g.c.App.MarketKeeper.GetMarket(ctx, q.OrderBookUID); ok && m.Status == markettypes.MarketStatus_MARKET_STATUS_RESULT_DECLARED {
+				live = append(live, q)
+			}
+		}
+		if len(live) > 0 {
+			p = pick(g.r, live)
+			g.stats["withdraw_during_settlement"]++
+		}
+	}
 	owner := g.c.AccID(p.ParticipantAddress)
 	signer := owner
 	dep := int64(-1)
@@ -1284,6 +1310,127 @@ func (g *Gen) subHouseWins() (Op, bool) {
 	return Op{Kind: "MADD", Signer: g.user(), Tk: lt(), UID: uid, Start: g.c.Time - 5, End: g.c.Time + 60000, Status: 1, Odds: odds}, true
 }
 
+// withdrawInWindow: one house backs bets on both outcomes of a fresh market, more of them than one block settles; the result is
+// declared, and in each of the following blocks - while lost bets are already settled and the winning one (placed last) or the order
+// book is not yet - the house asks for everything it may withdraw: what the settlement of a bet releases must not become withdrawable
+// while the participation still owes winnings (C09, C02, C05).
+func (g *Gen) withdrawInWindow() (Op, bool) {
+	cfg := g.c.Cfg
+	minDep := cfg.House.MinDeposit.Int64()
+	minBet := cfg.Bet.Constraints.MinAmount.Int64()
+	batch := int64(cfg.Bet.BatchSettlementCount)
+	if minBet <= 0 || minBet > cfg.Balance/64 || batch > 6 {
+		return Op{}, false
+	}
+	dep := 40 * minBet
+	if dep < minDep {
+		dep = minDep
+	}
+	if dep > cfg.Balance/2 {
+		return Op{}, false
+	}
+	uid := g.nextMkt
+	g.nextMkt++
+	odds := []int64{uid * 10, uid*10 + 1}
+	lt := func() Ticket { return Ticket{Signer: int64(g.c.LeaderKey()), Exp: g.c.Time + 4000} }
+	ky := func(x int64) Kyc { return Kyc{Ignore: false, Approved: true, ID: x} }
+	h := g.user()
+	var all []OddsMult
+	for _, od := range odds {
+		all = append(all, OddsMult{Odds: od, Mult: decFromStr("1")})
+	}
+	wag := func(sel int64, ov string, stake int64) Op {
+		b := g.user()
+		o := Op{Kind: "WAG", Signer: b, Tk: lt(), BetUID: g.nextBet, Amount: bi(stake), SelMkt: uid, SelOdds: sel, OddsVal: decFromStr(ov),
+			Mult: decFromStr("1"), Ky: ky(b), OddsType: 1, AllOdds: all}
+		g.nextBet++
+		return o
+	}
+	seq := []Op{{Kind: "DEP", Signer: h, Tk: lt(), Mkt: uid, Amount: bi(dep), Ky: ky(h), Depositor: -1}}
+	for i := int64(0); i < batch+int64(g.r.Intn(2)); i++ { // the losing bets first: they are settled first
+		seq = append(seq, wag(odds[1], "2", minBet+int64(g.r.Intn(3))))
+	}
+	seq = append(seq, wag(odds[0], "3", 2*minBet+int64(g.r.Intn(5)))) // the winner, settled last
+	seq = append(seq, Op{Kind: "MRES", Signer: g.user(), Tk: lt(), UID: uid, Rts: g.c.Time, Status: 5, Winners: []int64{odds[0]}})
+	g.pending = append(g.pending, seq...)
+	g.deferred = append(g.deferred, deferredWdr{mkt: uid, owner: h, left: 2})
+	g.stats["withdraw_in_window_script"]++
+	return Op{Kind: "MADD", Signer: g.user(), Tk: lt(), UID: uid, Start: g.c.Time - 5, End: g.c.Time + 60000, Status: 1, Odds: odds}, true
+}
+
+// subParamFlip: a subaccount deposits as a house on a fresh market, then the subaccount module's parameters are updated (an endpoint is
+// switched off) BEFORE the market is resolved and the participation settled: settlement, refunds and the ledger bookkeeping of what was
+// accepted under the old parameters must not depend on the new ones (C17: the ledgers stay sound under every accepted parameter history).
+func (g *Gen) subParamFlip() (Op, bool) {
+	cfg := g.c.Cfg
+	owners := g.subOwners()
+	ctx := g.c.Ctx()
+	if len(owners) == 0 || !g.c.App.SubaccountKeeper.GetParams(ctx).DepositEnabled {
+		return Op{}, false
+	}
+	o := pick(g.r, owners)
+	if o < 0 || o >= int64(len(g.c.Acc)) {
+		return Op{}, false
+	}
+	sa, ok := g.c.App.SubaccountKeeper.GetSubaccountByOwner(ctx, g.c.Acc[o].Addr)
+	if !ok {
+		return Op{}, false
+	}
+	sum, ok := g.c.App.SubaccountKeeper.GetAccountSummary(ctx, sa)
+	if !ok {
+		return Op{}, false
+	}
+	av := sum.Available()
+	minDep := cfg.House.MinDeposit.Int64()
+	minBet := cfg.Bet.Constraints.MinAmount.Int64()
+	if !av.IsInt64() || av.Int64() < minDep || minDep <= 0 {
+		return Op{}, false
+	}
+	amt := minDep + g.r.Int63n(av.Int64()-minDep+1)
+	uid := g.nextMkt
+	g.nextMkt++
+	odds := []int64{uid * 10, uid*10 + 1}
+	lt := func() Ticket { return Ticket{Signer: int64(g.c.LeaderKey()), Exp: g.c.Time + 4000} }
+	ky := func(x int64) Kyc { return Kyc{Ignore: false, Approved: true, ID: x} }
+	seq := []Op{{Kind: "SDEP", Signer: o, Tk: lt(), Mkt: uid, Amount: bi(amt), Ky: ky(o), Depositor: -1}}
+	if g.chance(0.5) && minBet <= cfg.Balance/8 && amt >= 4*minBet {
+		b := g.user()
+		var all []OddsMult
+		for _, od := range odds {
+			all = append(all, OddsMult{Odds: od, Mult: decFromStr("1")})
+		}
+		seq = append(seq, Op{Kind: "WAG", Signer: b, Tk: lt(), BetUID: g.nextBet, Amount: bi(minBet), SelMkt: uid, SelOdds: odds[0],
+			OddsVal: new(big.Int).Mul(big.NewInt(2), decFromStr("1")), Mult: decFromStr("1"), Ky: ky(b), OddsType: 1, AllOdds: all})
+		g.nextBet++
+	}
+	w := int64(1)
+	if g.chance(0.3) {
+		w = 0
+	}
+	seq = append(seq, Op{Kind: "SPRM", Status: w, Mode: 0})
+	switch g.r.Intn(3) {
+	case 0:
+		seq = append(seq, Op{Kind: "MRES", Signer: g.user(), Tk: lt(), UID: uid, Rts: g.c.Time, Status: 5, Winners: []int64{odds[g.r.Intn(2)]}})
+	case 1:
+		seq = append(seq, Op{Kind: "MRES", Signer: g.user(), Tk: lt(), UID: uid, Rts: g.c.Time, Status: 3})
+	default:
+		seq = append(seq, Op{Kind: "MRES", Signer: g.user(), Tk: lt(), UID: uid, Rts: g.c.Time, Status: 4})
+	}
+	g.pending = append(g.pending, seq...)
+	g.stats["sub_param_flip_script"]++
+	return Op{Kind: "MADD", Signer: g.user(), Tk: lt(), UID: uid, Start: g.c.Time - 5, End: g.c.Time + 60000, Status: 1, Odds: odds}, true
+}
+
+// genSubParams: an accepted update of the subaccount parameters; switched-off endpoints come back on soon
+func (g *Gen) genSubParams() Op {
+	p := g.c.App.SubaccountKeeper.GetParams(g.c.Ctx())
+	g.stats["sub_params_update"]++
+	if !p.WagerEnabled || !p.DepositEnabled {
+		return Op{Kind: "SPRM", Status: 1, Mode: 1}
+	}
+	return Op{Kind: "SPRM", Status: int64(g.r.Intn(2)), Mode: int64(g.r.Intn(2))}
+}
+
 func (g *Gen) HasPending() bool { return len(g.pending) > 0 }
 
 // NextTx draws one transaction according to the profile.
@@ -1297,6 +1444,22 @@ func (g *Gen) NextTx() Op {
 		g.pending = g.pending[1:]
 		return o
 	}
+	for i := range g.deferred {
+		d := &g.deferred[i]
+		for _, m := range g.markets {
+			if m.uid == d.mkt && m.resolved && g.c.Height > m.resH && g.c.Height > d.lastH && d.left > 0 {
+				d.left--
+				d.lastH = g.c.Height
+				g.stats["withdraw_in_settlement_window"]++
+				return Op{Kind: "WDR", Signer: d.owner, Tk: g.ticket(), Mkt: d.mkt, Pidx: 1, Mode: 1, Amount: bi(0), Ky: g.kycFor(d.owner), Depositor: -1}
+			}
+		}
+	}
+	if (g.profile == "bet" || g.profile == "sub") && g.chance(0.015) {
+		if o, ok := g.withdrawInWindow(); ok {
+			return o
+		}
+	}
 	if len(g.okTix) > 0 && g.chance(0.07) {
 		return g.replayTicket()
 	}
@@ -1308,6 +1471,18 @@ func (g *Gen) NextTx() Op {
 	if g.profile == "sub" && g.chance(0.02) {
 		if o, ok := g.subHouseWins(); ok {
 			return o
+		}
+	}
+	if g.profile == "sub" || g.profile == "params" {
+		p := g.c.App.SubaccountKeeper.GetParams(g.c.Ctx())
+		off := !p.WagerEnabled || !p.DepositEnabled
+		if (off && g.chance(0.08)) || (!off && g.chance(0.004)) {
+			return g.genSubParams()
+		}
+		if (g.profile == "sub" && g.chance(0.012)) || (g.profile == "params" && g.chance(0.05)) {
+			if o, ok := g.subParamFlip(); ok {
+				return o
+			}
 		}
 	}
 	if (g.profile == "bet" || g.profile == "sub") && g.chance(0.012) {
@@ -1422,6 +1597,7 @@ func (g *Gen) Observe(o Op, res string) {
 		for _, m := range g.markets {
 			if m.uid == o.UID {
 				m.resolved = true
+				m.resH = g.c.Height
 				m.status = o.Status
 			}
 		}
